@@ -34,6 +34,34 @@
 (*        stamps non-decreasing;                                           *)
 (*   (ii) a reception stamped at least Skew ms after another one is        *)
 (*        enqueued after it  (scheduling assumption, Skew is generous).    *)
+(* Clauses (names as printed by Trace_Pipeline):                            *)
+(*  (a) framing   a_invented  a record names a reception nobody sent        *)
+(*                a_payload   frame = un-escaped payload of the sent frame, *)
+(*                            status frames are never forwarded             *)
+(*                a_order     per receiver, stamps follow the stream order  *)
+(*                a_serial    one serial number per receiver (trace spec)   *)
+(*  (b) dedup     b_once      no reception twice (conservation)             *)
+(*                b_shape     record time = first reception's; members of   *)
+(*                            one receiver in stream order                  *)
+(*                b_window    every member but the last lies in the window  *)
+(*                b_split     same-frame records are >= W - Skew apart      *)
+(*                b_between   nothing stamped past the expiry, and no other *)
+(*                            reception of the frame, certainly arrived     *)
+(*                            between a group's first and last member       *)
+(*                b_order     records leave in first-arrival order (Skew)   *)
+(*                b_early     a record leaves only after a reception at or  *)
+(*                            past its expiry was on the wire               *)
+(*                bd_lost     a kept, decodable reception whose window has  *)
+(*                            certainly closed is printed                   *)
+(*  (c) identity  c_identity  df / icao24 = ShownDF / ShownICAO; frames     *)
+(*                            that never decode do not appear               *)
+(*  (d) filters   d_filter    printed => Keep(cfg, rec)  (converse: bd_lost)*)
+(*  (e) table     e_keys, e_count, e_times   one entry per address among    *)
+(*                ALL records that left the dedup stage (the table is       *)
+(*                updated BEFORE the filters), count, first/last (whole s)  *)
+(* Every clause is closed under taking a prefix of the printed output, so   *)
+(* records still pending when the program is killed are allowed.            *)
+(*                                                                         *)
 (* MC_Pipeline checks that the design-level composition (PipelineDesign,   *)
 (* which uses Dedup.tla's Insert/Pop and Beast.tla's buffer loop under     *)
 (* exactly (i) and (ii)) satisfies every clause in every reachable state.  *)
@@ -159,22 +187,30 @@ Clauses(In, W, Skew, cfg, recs, tab, stable) ==
       bd_lost == \A u \in Unobserved : LET e == In[u[1]][u[2]] IN
                    (e.dec /\ KeepPayload(cfg, Payload(e.fr))) => ~CertainlyEmitted(u[1], u[2])
       (* -------- (e) table --------------------------------------------- *)
-      (* the table is updated before the filters: records the filters drop *)
-      (* count as well; they are invisible, so they are bounded            *)
+      (* The table is updated before the filters: records the filters drop *)
+      (* count as well.  They are invisible, so they are bounded: at least *)
+      (* one record per distinct hidden frame that has certainly left, at  *)
+      (* most one per hidden reception.  A kept reception that is not (yet)*)
+      (* among the printed records may already have been counted (the line *)
+      (* is written after the table update, and the observation is a       *)
+      (* prefix of the output): it only raises the upper bound.            *)
       Addressed == {n \in R : Len(recs[n].frame) \in {7, 14} /\ CarriesAddress(recs[n].frame)}
       Vis(a) == {n \in Addressed : AddrOf(recs[n].frame) = a}
-      Hidden == {u \in AllSent(In) : LET e == In[u[1]][u[2]] IN
-                   e.dec /\ ~KeepPayload(cfg, Payload(e.fr))}
-      HiddenOf(a) == {u \in Hidden : AddrOf(Payload(In[u[1]][u[2]].fr)) = a}
+      DecSent == {u \in AllSent(In) : In[u[1]][u[2]].dec}
+      Hidden == {u \in DecSent : ~KeepPayload(cfg, Payload(In[u[1]][u[2]].fr))}
+      Ahead == (DecSent \ Hidden) \cap Unobserved
+      AddrU(u) == AddrOf(Payload(In[u[1]][u[2]].fr))
+      HiddenOf(a) == {u \in Hidden : AddrU(u) = a}
       LowerB(a) == Cardinality({Payload(In[u[1]][u[2]].fr) : u \in {v \in HiddenOf(a) : CertainlyEmitted(v[1], v[2])}})
-      UpperB(a) == Cardinality(HiddenOf(a))
+      UpperB(a) == Cardinality(HiddenOf(a)) + Cardinality({u \in Ahead : AddrU(u) = a})
       Keys == {tab[x].icao : x \in DOMAIN tab}
       VisAddrs == {AddrOf(recs[n].frame) : n \in Addressed}
-      HidAddrs == {AddrOf(Payload(In[u[1]][u[2]].fr)) : u \in Hidden}
+      HidAddrs == {AddrU(u) : u \in Hidden}
+      AheadAddrs == {AddrU(u) : u \in Ahead}
       e_keys == /\ Cardinality(Keys) = Len(tab)
                 /\ VisAddrs \subseteq Keys
                 /\ \A a \in HidAddrs : LowerB(a) >= 1 => a \in Keys
-                /\ Keys \subseteq VisAddrs \cup HidAddrs
+                /\ Keys \subseteq VisAddrs \cup HidAddrs \cup AheadAddrs
       e_count == \A x \in DOMAIN tab : LET a == tab[x].icao  v == Cardinality(Vis(a)) IN
                    tab[x].count >= v + LowerB(a) /\ tab[x].count <= v + UpperB(a)
       e_times == \A x \in DOMAIN tab : LET a == tab[x].icao IN
